@@ -119,10 +119,17 @@ func ruleC06R2(c *Ctx) {
 			}
 			callee := ci.Common().StaticCallee()
 			if callee.Signature.Recv() != nil && namedOf(callee.Signature.Recv().Type()) == a.SegMerge {
-				for _, arg := range ci.Common().Args {
+				hasAcc, hasElem := false, false
+				for _, arg := range ci.Common().Args[1:] {
 					if isBitmapPtr(arg.Type()) {
-						helperCall = ci
+						hasAcc = true
 					}
+					if namedOf(arg.Type()) == a.SegSnap {
+						hasElem = true
+					}
+				}
+				if hasAcc && hasElem {
+					helperCall = ci
 				}
 			}
 		})
@@ -159,29 +166,50 @@ func ruleC06R2(c *Ctx) {
 
 		// (iii) leftover old entries: all live docs mapped and added to the same accumulator
 		leftoverOK := false
+		// the translation loop may live in this function or in a helper that receives the accumulator
+		type accSite struct {
+			f   *ssa.Function
+			acc ssa.Value
+		}
+		sites := []accSite{{fn, acc}}
 		eachInstr(fn, func(in ssa.Instruction) {
 			ci, ok := in.(*ssa.Call)
-			if !ok || ci.Common().StaticCallee() == nil || ci.Common().StaticCallee().Name() != "Add" || !isBitmapPtr(ci.Common().Args[0].Type()) {
+			if !ok || ci == helperCall || ci.Common().StaticCallee() == nil || ci.Common().StaticCallee().Blocks == nil {
 				return
 			}
-			if ci.Common().Args[0] != acc {
-				return
-			}
-			v := ci.Common().Args[1]
-			viaMap := dependsOnField(v, fMap)
-			viaLive := dependsOn(v, func(y ssa.Value) bool {
-				c2, isCall := y.(*ssa.Call)
-				if !isCall || c2.Common().StaticCallee() == nil {
-					return false
+			callee := ci.Common().StaticCallee()
+			for i, arg := range ci.Common().Args {
+				if arg == acc && i < len(callee.Params) {
+					sites = append(sites, accSite{callee, callee.Params[i]})
 				}
-				f2 := c2.Common().StaticCallee()
-				// the live-docs bitmap of an entry of merge.old
-				return f2.Signature.Recv() != nil && namedOf(f2.Signature.Recv().Type()) == a.SegSnap && isBitmapPtr(c2.Type()) && dependsOnField(c2.Common().Args[0], fOld)
-			})
-			if viaMap && viaLive {
-				leftoverOK = true
 			}
 		})
+		for _, site := range sites {
+			site := site
+			eachInstr(site.f, func(in ssa.Instruction) {
+				ci, ok := in.(*ssa.Call)
+				if !ok || ci.Common().StaticCallee() == nil || ci.Common().StaticCallee().Name() != "Add" || !isBitmapPtr(ci.Common().Args[0].Type()) {
+					return
+				}
+				if ci.Common().Args[0] != site.acc {
+					return
+				}
+				v := ci.Common().Args[1]
+				viaMap := dependsOnField(v, fMap)
+				viaLive := dependsOn(v, func(y ssa.Value) bool {
+					c2, isCall := y.(*ssa.Call)
+					if !isCall || c2.Common().StaticCallee() == nil {
+						return false
+					}
+					f2 := c2.Common().StaticCallee()
+					// the live-docs bitmap of an entry of merge.old
+					return f2.Signature.Recv() != nil && namedOf(f2.Signature.Recv().Type()) == a.SegSnap && isBitmapPtr(c2.Type()) && dependsOnField(c2.Common().Args[0], fOld)
+				})
+				if viaMap && viaLive {
+					leftoverOK = true
+				}
+			})
+		}
 		c.Check(leftoverOK, "segments that vanished during the merge have all their live docs marked deleted in "+name, c.Pos(fn.Pos()),
 			"for every entry left in merge.old: accumulator.Add(oldNewDocNums[id][d]) for d over its live doc numbers",
 			"documents of a segment that was fully obsoleted while the merge ran are not marked deleted in the merged segment: deleted/updated documents reappear")
